@@ -965,6 +965,17 @@ fn main() {
             let r = panic::catch_unwind(|| eval_arm(&e));
             match r { Ok(v) => println!("OK no panic: {:?} -> {:?}", e, v), Err(_) => { println!("REPRODUCED evaluating {:?} panics", e); std::process::exit(1); } }
         }
+        // partkey: Value::to_partition_key against its specification on a fixed list of legitimate keys: a Str is its own key, an Int is its
+        // decimal rendering, and distinct keys of one type get distinct partition keys
+        "partkey" => {
+            let strs = ["A", "a", " a", "a ", "1", "01", "", "Ünï", "default", "x\ty", "KEY", "key"];
+            let ints = [0i64, 1, -1, 10, 100, 255, 256, 65536, 2147483647, 2147483648, 4294967296, 4294967297, -2147483649, i64::MAX, i64::MIN];
+            let mut bad: Vec<String> = Vec::new();
+            for s in strs { let k = Value::Str((*s).into()).to_partition_key().into_owned(); if k != *s { bad.push(format!("Str {s:?} -> key {k:?}")) } }
+            for n in ints { let k = Value::Int(n).to_partition_key().into_owned(); if k != n.to_string() { bad.push(format!("Int {n} -> key {k:?}")) } }
+            for (i, x) in ints.iter().enumerate() { for y in &ints[i + 1..] { if Value::Int(*x).to_partition_key() == Value::Int(*y).to_partition_key() { bad.push(format!("Int {x} and Int {y} share a key")) } } }
+            if bad.is_empty() { println!("OK partkey: {} strings and {} integers keep their own key", strs.len(), ints.len()) } else { println!("REPRODUCED partkey: {}", bad.join("; ")); std::process::exit(1) }
+        }
         _ => panic!("unknown subcommand"),
     }
 }
